@@ -58,11 +58,12 @@ type Monitor struct {
 	order   map[[2]*Cell]string // lock order edges
 	names   map[*Cell]string
 	cycles  map[string]bool
+	mutexVC map[*Cell]VC
 }
 
 func newMonitor() *Monitor {
 	return &Monitor{cells: map[*Cell][]accessRec{}, maps: map[*MapObj][]accessRec{}, races: map[string]bool{},
-		order: map[[2]*Cell]string{}, names: map[*Cell]string{}, cycles: map[string]bool{}}
+		order: map[[2]*Cell]string{}, names: map[*Cell]string{}, cycles: map[string]bool{}, mutexVC: map[*Cell]VC{}}
 }
 
 func (in *Interp) whereNow() (string, bool) {
